@@ -180,7 +180,32 @@ CHECKS.update({
    note=TB_B3),
 })
 
+TB_B2 = TB_B + (" Reference closed forms / transform pairs / symbolic derivative rules in harness/calcb.py and the property modules are trusted "
+                "(listed per run under assumptions); findings in known_findings_B2.json. Known-finding masks are class-wide.")
+CHECKS.update({
+ "C26": dict(level="exploration", engine="B", technique="per-instance Coq certificates |quad(f) - I| <= 2^(10-p)*max(|I|,1) by interval against closed forms; for a subset against RInt f a b by integral (no closed form trusted); reversal, splitting, both rules, 1-3 dimensions, node-cache history",
+   text="Each sampled quad/quadts/quadgl call (P*e^(ax)*sin/cos, rational functions with poles >= 1 away, Gaussians and decaying integrands on (half-)infinite intervals, 2-d/3-d products and sums; p in {30, 53, 100, 200, 500}; plain / reversed / split; low-precision calls first, re-runs after unrelated calls) becomes a Coq lemma with exactly the property's tolerance; failing samples are certified too. Universal accuracy is not proved.",
+   note=TB_B2 + " One known finding (fast-oscillating half-line integrands)."),
+ "C27": dict(level="exploration", engine="B", technique="exact-Q certificates by vm_compute for finite sums/products and rational closed forms; interval certificates for pi^2/6, pi^4/90, ln 2, pi/4, e^x, cos x, sqrt, sinh(pi)/pi; every nsum method the docstrings call suitable, nprod, limit, sumem, sumap, 2-d sums",
+   text="One Coq lemma per call at p in {30, 53, 100(, 200, 300)}; sampled instances only; only method/series pairings the docstrings name as suitable.",
+   note=TB_B2 + " Known finding: nsum of rational summands at prec 25-32."),
+ "C28": dict(level="exploration", engine="B", technique="references by symbolic differentiation of the term compiled into the callable; interval or exact-Z lemmas per returned number (diff step/quad, directions, partials, diffs, diffun, taylor); difference = exact binomial sum over Z; pade residuals convolved by Coq over Z; differint against the Gamma closed form",
+   text="Per-instance certificates on sampled calls; the universal difference specification is not proved here.",
+   note=TB_B2 + " Two known findings (diff method='quad' at orders >= 6; pade(a,0,0))."),
+ "C34": dict(level="exploration", engine="B", technique="interval certificates of odefun values against closed-form solutions at about 8 points plus segment boundaries; bitwise equality (Z lemmas) of the values from fresh interpolants evaluated in decreasing order, random order with repeats, and with other precisions interleaved",
+   text="Per-instance certificates; the order/precision-independence clause is checked bit for bit on sampled problems; the segment machine is not proved.",
+   note=TB_B2 + " Two known findings (non-dyadic initial values lose the first segment's precision - severe; low-precision fast oscillators)."),
+ "C36": dict(level="exploration", engine="B", technique="Coq evaluates the returned and the input polynomial at N+20 rational points over Z (fit and error=True consistency); interval for exp / sin / 1/(x+c); fourier coefficients against planted rationals over Z; fourierval against its definition by interval after exact reduction mod 1",
+   text="Per-instance certificates; the readings of 'relative' and 'consistent' are stated in the evidence assumptions; N <= 12, interval inside [-2, 2].",
+   note=TB_B2),
+ "C42": dict(level="exploration", engine="B", technique="interval / Z certificates |y - f(t)| <= 10^(3-dps/2)*|f(t)| for nine transform pairs; J0 and erfc through RInt with integral; dps in {15, 20, 30(, 50)}; each method restricted to what its docstring covers",
+   text="Per-instance certificates on sampled (F, t, method, dps); odd dps use a 2^-80 rational bracket of the tolerance.",
+   note=TB_B2 + " One known finding beyond 'moderate t' (stehfest/dehoog for a*t >= 20-30 at dps 15)."),
+})
+
 NOT_APPLICABLE = {
+ "C37": "The property compares runs on the gmpy2 backend with runs on the pure-Python backend; gmpy2 is not installed and cannot be installed in this sandbox, and its C routines (_mpmath_normalize, _mpmath_create, mpz arithmetic) are outside the repository, so no executable model of the second backend can be tied to code. The only part visible in the Python sources, gmpy_mpf_mul = python_mpf_mul on canonical inputs, is proved (Proofs/Ops.v gmpy_mul_eq_python_mul) and both variants run in the C02 correspondence; that is reported under C02, not claimed as C37.",
+ "C41": "Needs a formal Riemann zeta function on the critical line, Turing's method and Rosser-block theory; nothing installed defines zeta, and no executable Gallina model short of re-implementing and trusting Riemann-Siegel can express 'the n-th zero'. Internal consistency tests (nzeros(Im rho_n) = n) would be tests, not theorems about zeros; not claimed.",
 }
 
 ALL = ["C%02d" % i for i in range(1, 44)]
